@@ -554,6 +554,64 @@ def t_negreg(g):
     return dict(template="negreg", expect="ok", warm=False, claim="every-cycle")
 
 
+def t_mem_region(g):
+    """a memory inside the pipelined region: write port and two read ports fed by one balance group, a pipeline hint
+    behind ONE read port only (forward retiming through a memory read port must take all ports of the memory along)"""
+    r = g.r
+    resets = True
+    stall = r.random() < 0.25
+    dbits = r.choice([1, 1, 2])
+    depth = 2
+    shared_wa = r.random() < 0.4
+    widths = [1, 1] + ([] if shared_wa else [1]) + [dbits, 0]
+    # the write enable's pipeline registers reset to 0: a write issued from reset values while the pipeline fills would
+    # change the (persistent) memory contents of the reference only - state that depends on the grouped inputs is
+    # outside the every-cycle claim
+    pins = [g.pin(w) for w in widths]
+    en = None
+    if stall:
+        en = g.pin(0)
+        g.emit(f"enif {en}")
+        g.feat.add("stall")
+    g.emit("pipegroup G")
+    outs = []
+    for k, p in enumerate(pins):
+        n = g.fresh("g")
+        lit = ("0" if k == len(pins) - 1 else g.rstlit(p))
+        g.emit(f"pipein {n} G {p} rst {lit}")
+        g.rstof[n] = lit
+        outs.append(g.define(n, g.typ[p]))
+    ga1, ga2 = outs[0], outs[1]
+    gwa = ga1 if shared_wa else outs[2]
+    gwd, gwe = outs[-2], outs[-1]
+    m = g.fresh("M")
+    g.emit(f"mem {m} {depth} {dbits}" + (" zero" if False else ""))
+    order = r.choice(["rrw", "rwr", "wrr"])
+    reads = []
+    def wr():
+        g.emit(f"if {gwe}"); g.emit(f"memwrite {m} {gwa} {gwd}"); g.emit("endif")
+    def rd(a):
+        n = g.fresh("q"); g.emit(f"memread {n} {m} {a}"); reads.append(g.define(n, ('u', dbits))); return n
+    addrs = [ga1, ga2]
+    for ch in order:
+        if ch == "w": wr()
+        else: rd(addrs[len(reads)])
+    x = reads[0]
+    if r.random() < 0.6:
+        x = g.op2(x, gwd) if g.typ[gwd] == g.typ[x] else g.unop(x)
+    x = g.hint(x)
+    if stall:
+        g.emit("endenif")
+    g.out(x)
+    y = reads[1]
+    if r.random() < 0.4:
+        y = g.unop(y)
+    g.out(y)
+    g.feat.add("memory-in-region"); g.feat.add("two-read-ports"); g.feat.add("group")
+    g.feat.add("resets" if resets else "no-resets")
+    return dict(template="mem_region:" + order, expect="ok", warm=False, claim="every-cycle")
+
+
 TEMPLATES = [
     ("stateless", 30, lambda g: t_pipeline(g, ff=False)),
     ("feedforward", 16, lambda g: t_pipeline(g, ff=True)),
@@ -564,6 +622,7 @@ TEMPLATES = [
     ("movable_series", 7, t_movable_series),
     ("movable_bwd", 12, t_movable_bwd),
     ("negreg", 14, t_negreg),
+    ("mem_region", 8, t_mem_region),
 ]
 
 
